@@ -24,7 +24,8 @@ RULE = ("one value per case, printed in both modes and consumed in every way a c
         "the only position, long keys and values in dicts, nesting depth 30..101 (offsets beyond both limits), a value "
         "next to a string that spells it (1/'1', None/'None'/'null', 1.0/'1.0', []/'[]' ...) in one container and in "
         "consecutive calls, keys that trap code-point order; Python mode only: dicts with int / bool / None keys "
-        "mixed with strings (every pair of key kinds in both insertion orders; '1' next to 1, 'True' next to True); "
+        "mixed with strings (every pair of key kinds in both insertion orders; '1' next to 1, 'True' next to True), "
+        "int keys around 2**53, 2**63, 2**64, 10**30, 2**1024, 10**400 (adjacent, negative, inserted descending); "
         "values in which the same dict / list object occurs at several places (every layout, `[row]*3`, shared "
         "defaults), sent through the protocol as references. Thresholds are read from the tree under test. "
         "non-trivial = the value contains a non-empty container; distinct by protocol text")
@@ -857,6 +858,21 @@ _PYKEYS = [0, 1, -1, 2, 9, 10, -10, 42, 10 ** 20, -(10 ** 20), True, False, None
            "", "0", "1", "-1", "10", "9", "True", "False", "None", "true", "null", "a", "B", "b", "~", "é"]
 
 
+_BIG = [2 ** 53, 2 ** 63, 2 ** 64, 10 ** 30, 2 ** 100, 2 ** 1024, 10 ** 400]
+
+
+def _big_int_keys(rng, n):
+    """int keys beyond the range where floats are exact: adjacent ones, negatives, in non-ascending insertion order"""
+    base = rng.choice(_BIG) * rng.choice([1, 1, -1])
+    ks = {base + d for d in rng.sample(range(-4, 5), min(n, 9))}
+    if rng.random() < 0.5:
+        ks |= {rng.choice(_BIG) + rng.randint(-2, 2), -rng.choice(_BIG), rng.randint(-3, 3)}
+    ks = sorted(ks, reverse=True)               # descending = never the sorted order
+    if rng.random() < 0.5:
+        rng.shuffle(ks)
+    return ks
+
+
 def _pykey_dict(rng, n, value_fn):
     """a dict with int / bool / None / string keys mixed (keys that are equal for Python, such as 1 and True,
     never meet in one dict)"""
@@ -1058,6 +1074,16 @@ def gen_cases(rng, tier):
         for b in (True, False, None, 0, 1, -5, 10, "1", "a", "True"):
             if a != b and not (a in (0, 1) and b in (True, False) and a == b) and len({a: 0, b: 1}) == 2:
                 yield mk({a: "x", b: [1]}, "python-keys")
+    for _ in range(60 if quick else 1500):      # big int keys (exact integer order, far beyond 2**53)
+        ks = _big_int_keys(rng, rng.choice([2, 3, 5, 9]))
+        d = {k: _simple(rng, 5) for k in ks}
+        if rng.random() < 0.4:
+            d["s"] = 1
+            d[True] = [ks[0]]
+        yield mk(d if rng.random() < 0.7 else [d, {"in": d}], "python-keys-big", rng.choice([0, 3]))
+    for b in _BIG:                              # the adjacent pair around every boundary, descending insertion
+        yield mk({b + 1: "hi", b: "lo"}, "python-keys-big")
+        yield mk({-b: "hi", -b - 1: "lo", b: 0}, "python-keys-big")
     # 12. the same container object at several places of the value
     for _ in range(200 if quick else 4000):
         v = _shared_values(rng, lim_w)
